@@ -21,7 +21,7 @@ ID = 'C09'
 
 MANIFEST = dict(
     technique='explicit-state exploration of save/load operation sequences on real PageLayout objects over a finite variant alphabet (all pages up to 3 lines x all target id-subsets x all component removals x legacy formats); reference model = plain dict; end-to-end re-decoding differential',
-    text='Bounded exhaustive: every page of 0-3 lines over a 30-variant line alphabet (1 line: all; 2 lines: all pairs; 3 lines: 6x6x30), saved through the path and bytes variants and loaded into every layout holding a subset of the ids plus an unknown id (pre-filled with other data), with the save-load-save-load chain, every removal of one or two of {logits, charset, window} from each line under both values of missing_line_logits_ok, and legacy files. Restored matrices must be identical in values and sparsity structure, other lines untouched, missing components reported and nothing written; dense reconstruction keeps stored entries, floors pruned ones and normalises rows; a layout rebuilt from PAGE XML + logits must re-decode (greedy and beam) and export ALTO words identically. Added sub-sweeps: float32 matrices with a dominant entry, pruned entries stored as explicit zeros and csr / coo layouts, 12-line pages, a line that decodes to \'\', saved logits loaded into a layout that was already decoded and exported with other logits, and the page-level confidence filter on the rebuilt layout. ALTO export under min_line_confidence thresholds placed on the stored (three-decimal) and the full-precision line confidences. Every page is also saved from and loaded into layouts over every pair of page ids (None, equal, one a prefix of the other, a path): only the line ids decide what is restored. Partial files end to end: pages of 2-3 (thorough: 4) painted lines, every non-empty set of lines absent from the logits file (saved from a layout with fewer lines, or as lines without logits under missing_line_logits_ok), loaded into the layout rebuilt from PAGE XML with or without transcriptions and re-decoded: every line that got its logits back re-decodes to the original text, a line absent from the file keeps what it had.',
+    text='Bounded exhaustive: every page of 0-3 lines over a 30-variant line alphabet (1 line: all; 2 lines: all pairs; 3 lines: 6x6x30), saved through the path and bytes variants and loaded into every layout holding a subset of the ids plus an unknown id (pre-filled with other data), with the save-load-save-load chain, every removal of one or two of {logits, charset, window} from each line under both values of missing_line_logits_ok, and legacy files. Restored matrices must be identical in values and sparsity structure, other lines untouched, missing components reported and nothing written; dense reconstruction keeps stored entries, floors pruned ones and normalises rows; a layout rebuilt from PAGE XML + logits must re-decode (greedy and beam) and export ALTO words identically. Added sub-sweeps: float32 matrices with a dominant entry, pruned entries stored as explicit zeros and csr / coo layouts, 12-line pages, a line that decodes to \'\', saved logits loaded into a layout that was already decoded and exported with other logits, and the page-level confidence filter on the rebuilt layout. ALTO export under min_line_confidence thresholds placed on the stored (three-decimal) and the full-precision line confidences. Every page is also saved from and loaded into layouts over every pair of page ids (None, equal, one a prefix of the other, a path): only the line ids decide what is restored. Partial files end to end: pages of 2-3 (thorough: 4) painted lines, every non-empty set of lines absent from the logits file (saved from a layout with fewer lines, or as lines without logits under missing_line_logits_ok), loaded into the layout rebuilt from PAGE XML with or without transcriptions and re-decoded: every line that got its logits back re-decodes to the original text, a line absent from the file keeps what it had. Results kept by the caller: on every saved and every fully restored layout (and on the rebuilt layout while it is decoded and exported) the dense matrices (both floors) and log-probabilities of all lines are collected first and compared afterwards with an entry-by-entry reconstruction, then one returned array is overwritten by the caller - every other kept result and the next reconstruction must be unaffected. Line index attributes: end-to-end pages of three distinct lines under every assignment of TextLine.index from {None, 0, 1, 2} (thorough: + 7), i.e. equal, descending and gapped indices as left behind by sorting lines or merging regions after a PAGE import - the rebuilt layout must export the ALTO text in the order of the original.',
     note='Matrix shapes up to 5x4; ids from a fixed set; pickle protocol as used by the code.',
     ref='3/C09')
 
@@ -36,7 +36,8 @@ CHARSETS = [['a', 'b', 'c'], ['c', 'b́', 'aa']]
 WINDOWS = ['full', 'inner', 'none']
 VARIANTS = [(m, c, w) for m in range(len(MATS)) for c in range(2) for w in range(3)]
 SUB = [VARIANTS[i] for i in (0, 7, 14, 21, 28, 5)]
-BOUNDS = {'quick': dict(three_line_third='sub', page_ids_on_three_line_pages='two', partial_file_lines=(2, 3)), 'thorough': dict(three_line_third='all', page_ids_on_three_line_pages='all', partial_file_lines=(2, 3, 4))}
+BOUNDS = {'quick': dict(three_line_third='sub', page_ids_on_three_line_pages='two', partial_file_lines=(2, 3), line_index_alphabet=(None, 0, 1, 2)),
+          'thorough': dict(three_line_third='all', page_ids_on_three_line_pages='all', partial_file_lines=(2, 3, 4), line_index_alphabet=(None, 0, 1, 2, 7))}
 BOUNDS['replay'] = BOUNDS['quick']
 TMP = '/verif/.cache/tmp'
 PAGE_IDS = [None, 'p', 'p.jpg', 'scans/p.tif']      # ids of the saving / the loading PageLayout
@@ -55,6 +56,8 @@ def shards(tier):
     for i in range(len(SUB)):
         out.append({'n': 3, 'first': i})
     out.append({'kind': 'e2e'})
+    for first in range(len(BOUNDS[tier]['line_index_alphabet'])):
+        out.append({'kind': 'e2e-index', 'first': first})
     out.append({'kind': 'filter'})
     out.append({'kind': 'big'})
     for nl in BOUNDS[tier]['partial_file_lines']:
@@ -79,6 +82,12 @@ def run_shard(shard, ctx, tier):
         # pages with more lines than one digit can number (ids l1 .. l12: l1 is a prefix of l10, l11, l12)
         for step in (1, 5, 7):
             guarded_check(mod, {'lines': [list(VARIANTS[(3 + k * step) % len(VARIANTS)]) for k in range(12)], 'pids': 'two'}, ctx)
+        return
+    if shard.get('kind') == 'e2e-index':
+        # three lines with distinct texts x every assignment of index attributes (None = a line made by an engine; equal, descending, gaps)
+        alpha = BOUNDS[tier]['line_index_alphabet']
+        for rest in itertools.product(alpha, repeat=2):
+            guarded_check(mod, {'e2e': list(INDEX_TEXTS), 'index': [alpha[shard['first']]] + list(rest)}, ctx)
         return
     if shard.get('kind') == 'e2e':
         texts = [''.join(p) for n in range(0, 4) for p in itertools.product('ab ', repeat=n)]      # incl. a line that decodes to ''
@@ -187,6 +196,78 @@ def check_dense(line, M, ctx, K, desc):
         ctx.violation('dense-rows-normalised', f'{K}/get_full_logprobs/not-normalised', f'{desc}: row sums {np.exp(lp).sum(axis=1)}')
 
 
+def ref_dense(M, floor):
+    """entry-by-entry reconstruction: the floor everywhere, every stored entry written at its place (independent of toarray)"""
+    M = M.tocoo()
+    out = np.full(M.shape, floor, dtype=M.dtype)
+    for r, c, x in zip(M.row.tolist(), M.col.tolist(), M.data.tolist()):
+        out[r, c] = x
+    return out
+
+
+def same_values(a, b, tol=0.0):
+    """NaN-aware: True only if both arrays have the same shape and every entry of a is within tol of b"""
+    a, b = np.asarray(a, dtype=np.float64), np.asarray(b, dtype=np.float64)
+    if a.shape != b.shape:
+        return False
+    if a.size == 0:
+        return True
+    return bool(np.abs(a - b).max() <= tol)
+
+
+def check_held_results(pairs, ctx, K, desc, between=None):
+    """the caller KEEPS what the dense reconstruction handed out while further reconstructions are made (of the same line with another
+    floor, of the other lines, log-probabilities; `between`: consumers of the library itself), then looks at every kept result again: it must
+    still be the reconstruction of its line.  Then the caller writes into ONE array it was given back: every other kept result is unchanged
+    and the next reconstruction of that line is again that of the stored matrix.  `pairs` = [(line, matrix that was stored for it)]."""
+    pairs = [(l, M) for l, M in pairs if l.logits is not None]
+    if not pairs:
+        return True
+    held = []
+    for line, M in pairs:
+        held.append((line.id, 'get_dense_logits()', line.get_dense_logits(), ref_dense(M, -80), 0.0))
+        held.append((line.id, 'get_dense_logits(-30.5)', line.get_dense_logits(-30.5), ref_dense(M, -30.5), 0.0))
+        lp_ref = ref_dense(M, -80).astype(np.float64)
+        lp_ref = lp_ref - np.logaddexp.reduce(lp_ref, axis=1)[:, np.newaxis]
+        held.append((line.id, 'get_full_logprobs()', line.get_full_logprobs(), lp_ref, 1e-9 if M.dtype == np.float64 else 1e-3))
+        ctx.executed(3)
+    if between is not None:
+        between()
+
+    def first_wrong(skip=None):
+        for k, (lid, what, got, want, tol) in enumerate(held):
+            if k != skip and not same_values(got, want, tol):
+                return lid, what, got, want
+        return None
+    bad = first_wrong()
+    if bad is not None:
+        ctx.violation('dense-keeps-stored-logits', f'{K}/dense/result-kept-by-the-caller-changed-by-later-calls',
+                      f'{desc}: {bad[1]} of line {bad[0]} was kept while the dense matrices / log-probabilities of {[l.id for l, _ in pairs]} were '
+                      f'reconstructed (each twice); afterwards the kept array is {np.asarray(bad[2]).tolist()}, the reconstruction of the stored matrix is '
+                      f'{np.asarray(bad[3]).tolist()}')
+        return False
+    ctx.tag('dense-results-kept-across-later-reconstructions')
+    if len({(M.shape[1], M.dtype.str) for _, M in pairs}) < len(pairs):
+        ctx.tag('dense-results-of-lines-with-equal-alphabet-size-kept')
+    # the caller owns what it was given back: it overwrites the first array
+    held[0][2][...] = 4321.0
+    bad = first_wrong(skip=0)
+    if bad is not None:
+        ctx.violation('dense-keeps-stored-logits', f'{K}/dense/writing-into-one-result-changes-another-result',
+                      f'{desc}: the caller overwrote the array returned by {held[0][1]} for line {held[0][0]}; the array it holds from {bad[1]} for line '
+                      f'{bad[0]} is now {np.asarray(bad[2]).tolist()}, the reconstruction of the stored matrix is {np.asarray(bad[3]).tolist()}')
+        return False
+    for line, M in pairs:
+        got = line.get_dense_logits()
+        ctx.executed()
+        if not same_values(got, ref_dense(M, -80)):
+            ctx.violation('dense-keeps-stored-logits', f'{K}/dense/reconstruction-after-the-caller-modified-an-earlier-result',
+                          f'{desc}: after the caller overwrote the array it got for line {held[0][0]}, get_dense_logits() of line {line.id} returns '
+                          f'{np.asarray(got).tolist()}, the reconstruction of the stored matrix is {ref_dense(M, -80).tolist()}')
+            return False
+    return True
+
+
 def check_pages(case, ctx):
     variants = [tuple(v) for v in case['lines']]
     n = len(variants)
@@ -200,6 +281,8 @@ def check_pages(case, ctx):
     # ---- dense reconstruction on the original lines
     for line in page.lines_iterator():
         check_dense(line, model[line.id][0], ctx, K, f'{desc0} line {line.id}')
+    if not check_held_results([(line, model[line.id][0]) for line in page.lines_iterator()], ctx, K, f'{desc0} (the layout that is saved)'):
+        return
     blobs = {}
     page.save_logits(path)
     with open(path, 'rb') as f:
@@ -257,6 +340,9 @@ def check_pages(case, ctx):
                             ctx.violation('absent-lines-untouched', f'{K}/load/absent-line-modified', f'{desc}: line {line.id} was modified')
                             return
                 if how in ('path', 'bytes') and set(S) == set(ids) and n:
+                    # the restored lines are independent of each other: results kept by the caller across reconstructions of the other lines
+                    if not check_held_results([(line, model[line.id][0]) for line in tgt.lines_iterator()], ctx, K, f'{desc} (the restored layout)'):
+                        return
                     # chain: save the restored layout again and compare with the first file
                     again = pickle.loads(tgt.save_logits_bytes())
                     ctx.executed()
@@ -383,9 +469,13 @@ def check_e2e(case, ctx):
         # (every second page uses line ids of the form other tools and ALTO-derived files use: 'id_0001')
         reg.lines.append(TextLine(id=(f'id_{k:04d}' if len(texts[0]) % 2 else f'r1-l{k}'), baseline=np.asarray([[10, 30 + 40 * k], [250, 30 + 40 * k]]),
                                   polygon=np.asarray([[10, 10 + 40 * k], [250, 10 + 40 * k], [250, 40 + 40 * k], [10, 40 + 40 * k]]),
-                                  heights=[20, 10], logits=sparse.csc_matrix(M), characters=list(chars), logit_coords=[2, len(rows) - 2]))
+                                  heights=[20, 10], logits=sparse.csc_matrix(M), characters=list(chars), logit_coords=[2, len(rows) - 2],
+                                  index=(case['index'][k] if 'index' in case else None)))
     page.regions.append(reg)
-    ctx.state(('e2e', tuple(texts)))
+    # TextLine.index (PAGE XML attribute 'index'): None for lines made by an engine, the position for lines imported from PAGE XML - and whatever
+    # the import gave them once lines were sorted / regions merged / a line inserted afterwards.  The order of a layout is that of its lists.
+    exported = [i if v is None else v for i, v in enumerate(case.get('index', []))]
+    ctx.state(('e2e', tuple(texts)) + ((tuple(case['index']),) if 'index' in case else ()))
     letters = chars[:-1] + [BLANK_SYMBOL]
     decs = {'greedy': lambda: GreedyDecoder(letters), 'beam': lambda: CTCPrefixLogRawNumpyDecoder(letters, 4)}
     for name, mk in decs.items():
@@ -397,20 +487,33 @@ def check_e2e(case, ctx):
         rebuilt = PageLayout()
         rebuilt.from_pagexml_string(xml)
         rebuilt.load_logits(blob)
-        saved_text = [l.transcription for l in rebuilt.lines_iterator()]
-        for lo, lr in zip(orig.lines_iterator(), rebuilt.lines_iterator()):
+        rebuilt_ids = [l.id for l in rebuilt.lines_iterator()]
+        by_id = {l.id: l for l in rebuilt.lines_iterator()}
+        same_id_set = sorted(rebuilt_ids) == sorted(l.id for l in orig.lines_iterator()) and len(by_id) == len(rebuilt_ids)
+        # (lines are associated by id, as load_logits does; the ORDER of the rebuilt layout is judged by what it exports, below)
+        rebuilt_in_orig_order = [by_id[l.id] for l in orig.lines_iterator()] if same_id_set else list(rebuilt.lines_iterator())
+        saved_text = [l.transcription for l in rebuilt_in_orig_order]
+        for lo, lr in zip(orig.lines_iterator(), rebuilt_in_orig_order):
             if lr.id != lo.id or lr.logits is None or not same_sparse(lr.logits, lo.logits) or list(lr.characters or []) != list(lo.characters) or \
                     list(lr.logit_coords or []) != list(lo.logit_coords):
                 ctx.violation('rebuilt-layout-redecodes-identically', f'{ID}/e2e/rebuilt-layout-lacks-the-saved-logits/{name}',
                               f'lines {texts}, decoder {name}: line {lo.id!r} of the original comes back from PAGE XML + logits file as {lr.id!r} with logits '
                               f'{"absent" if lr.logits is None else "present"}, characters {lr.characters}, window {lr.logit_coords}')
                 return
-        PageDecoder(mk()).process_page(rebuilt)
-        alto2 = rebuilt.to_altoxml_string()
+        desc = f'lines {texts}, decoder {name}' + (f', index attributes of the lines {case["index"]}' if 'index' in case else '')
+        alto2 = []
+
+        def consumers():
+            PageDecoder(mk()).process_page(rebuilt)
+            alto2.append(rebuilt.to_altoxml_string())
+        # the dense matrices of all lines of the rebuilt layout are kept by the caller while the layout is decoded and exported
+        if not check_held_results([(lr, lo.logits) for lo, lr in zip(orig.lines_iterator(), rebuilt_in_orig_order)], ctx, ID,
+                                  f'{desc}, layout rebuilt from PAGE XML + logits, then decoded and exported to ALTO', between=consumers):
+            return
+        alto2 = alto2[0]
         ctx.executed(8)
         t1 = [l.transcription for l in orig.lines_iterator()]
-        t2 = [l.transcription for l in rebuilt.lines_iterator()]
-        desc = f'lines {texts}, decoder {name}'
+        t2 = [l.transcription for l in rebuilt_in_orig_order]
         if t1 != t2 or saved_text != t1:
             ctx.violation('rebuilt-layout-redecodes-identically', f'{ID}/e2e/redecoding-differs/{name}',
                           f'{desc}: original {t1}, stored in PAGE XML {saved_text}, re-decoded from saved artefacts {t2}')
@@ -418,8 +521,13 @@ def check_e2e(case, ctx):
         w1 = re.findall(r'CONTENT="([^"]*)"', alto1)
         w2 = re.findall(r'CONTENT="([^"]*)"', alto2)
         if w1 != w2:
-            ctx.violation('rebuilt-layout-exports-same-alto', f'{ID}/e2e/alto-differs/{name}', f'{desc}: {w1} vs {w2}')
+            reordered = same_id_set and rebuilt_ids != [l.id for l in orig.lines_iterator()] and sorted(w1) == sorted(w2)
+            ctx.violation('rebuilt-layout-exports-same-alto', f'{ID}/e2e/alto-differs/{"lines-in-another-order/" if reordered else ""}{name}',
+                          f'{desc}: ALTO words of the original {w1}, of the layout rebuilt from its PAGE XML + logits {w2}; line ids in the original '
+                          f'{[l.id for l in orig.lines_iterator()]}, in the rebuilt layout {rebuilt_ids}')
             return
+        if 'index' in case and any(b < a for a, b in zip(exported, exported[1:])) and len(set(t1)) == len(t1):
+            ctx.tag('line-index-attributes-disagree-with-the-line-order')
         if [w for t in t1 for w in t.split()] != w1:
             ctx.violation('rebuilt-layout-exports-same-alto', f'{ID}/e2e/alto-words-not-the-transcription', f'{desc}: {t1} vs {w1}')
             return
@@ -480,6 +588,7 @@ def check_e2e(case, ctx):
 
 
 PARTIAL_TEXTS = ['ab', 'b a', 'a', '']
+INDEX_TEXTS = ['ab', 'b a', 'a']
 
 
 def painted_page(texts, chars):
@@ -645,11 +754,13 @@ def describe(tier):
                 'Non-trivial: pages with >= 2 lines (id association matters) and end-to-end pages. Every page additionally saved from / loaded into layouts '
                 'over every pair of page ids (4 x 4; 3-line pages quick: 2 x 2) x both save variants; partial-file end-to-end pages: all pages of 2..3 (thorough: 4) '
                 'lines over 4 painted texts x every non-empty set of absent lines x 2 ways of producing the partial file x PAGE XML with / without '
-                'transcriptions x 2 decoders.',
+                'transcriptions x 2 decoders. Every saved / fully restored layout: all dense results of all lines kept across the later reconstructions, then one of them '
+                'overwritten by the caller. End-to-end pages of 3 distinct lines x every index-attribute assignment over the line_index_alphabet (4^3; thorough 5^3).',
         'bounds': BOUNDS[tier],
-        'alphabets': {'matrices': MATS, 'charsets': CHARSETS, 'windows': WINDOWS, 'page_ids': PAGE_IDS, 'partial_file_texts': PARTIAL_TEXTS},
+        'alphabets': {'matrices': MATS, 'charsets': CHARSETS, 'windows': WINDOWS, 'page_ids': PAGE_IDS, 'partial_file_texts': PARTIAL_TEXTS, 'line_index_texts': INDEX_TEXTS},
         'assumptions': ['no stored entry is exactly 0.0 (precondition of the format)', 'line ids never equal the table keys'],
         'min_nontrivial': 100, 'required_tags': ['confidence-threshold-drops-some-lines', 'multi-line-pages', 'missing-component-cases', 'end-to-end-pages', 'filter-splits-the-page', 'logits-loaded-into-a-used-layout', 'more-than-nine-lines', 'explicit-zeros-and-other-sparse-formats',
                                                'loaded-into-layout-with-another-page-id', 'partial-file-pages', 'line-without-logits-before-lines-with-logits',
-                                               'partial-file-into-layout-only-xml'],
+                                               'partial-file-into-layout-only-xml', 'dense-results-kept-across-later-reconstructions',
+                                               'dense-results-of-lines-with-equal-alphabet-size-kept', 'line-index-attributes-disagree-with-the-line-order'],
     }
